@@ -45,6 +45,13 @@ add("C11", EX, "All pairs over a constructed universe of ~20k task nodes (every 
     "exhaustive all-pairs comparison over a bounded constructed universe (group by token, evaluate each equal pair)")
 add("C12", EX, "All pairs over a constructed universe (~7.4k values: builtins, nested containers, every 0/1 array of 7 small shapes x 12 dtypes x 7 memory layouts, object arrays, pandas objects incl. every block placement, dataclasses, partials, lambdas), decided by grouping on the token against an independent structural equality; determinism under repeat, deepcopy, pickle, reconstruction and two other hash seeds in child interpreters.", "5/C12", "Trusted: the structural oracle canon(); the universe is finite and stated in the evidence rule.",
     "exhaustive all-pairs injectivity check over a bounded constructed universe (group by token) + determinism replays across interpreters")
+PY_NOTE = "Trusted: the plain-Python / NumPy / pandas reference on the concatenated data; sync scheduler; bounds as in the evidence rule; known findings matched by narrow (operation, failure-class, input-class) keys."
+add("C48", EX, "Every short sequence x every partitioning with empty partitions x every bag operation of the statement (with split_every, both shuffle methods, multi-stage task shuffles, initial values) runs on the real Bag code and is compared with the plain-Python one-liner on the concatenated sequence, as a multiset wherever bags promise no order. Bounded-exhaustive, not sampled.", "5/C48", PY_NOTE,
+    "bounded exhaustive enumeration (all sequences x all partitionings x all operations) against a plain-Python reference model")
+add("C49", EX, "All small populations x all partitionings with empty partitions x every k x split_every x RNG seeds: samples are sub-multisets of the right size, choices are members, and random_sample(random_state) is identical across sync, threaded, recomputation and rebuild.", "5/C49", PY_NOTE,
+    "bounded exhaustive enumeration against a multiset/subsequence oracle")
+add("C50", EX, "Every small file content x delimiter (single, self-overlapping, 2-letter, newline family, 2-byte unicode) x every blocksize x 1-3 files x files_per_partition x include_path is read through the real read_bytes/read_text from memory:// and compared with bytes.join / str.split.", "5/C50", PY_NOTE,
+    "bounded exhaustive enumeration of file contents x blocksizes against a plain-Python reference model")
 
 
 def build():
